@@ -63,7 +63,8 @@ def cases(tier, inst):
         if tier == "thorough" or c[3] == "rich" or i % 3 == 0:
             yield ("c02", c)
     for c in c03.cases(tier, inst):
-        if Q.depth(c[1]) <= 1 or tier == "thorough" or hash(c) % 3 == 0:
+        # negation trees: all of depth <= 1, and of depth 2 a third (quick) / all (thorough); depth 3 is C03's own
+        if Q.depth(c[1]) <= 1 or (Q.depth(c[1]) == 2 and (tier == "thorough" or hash(c) % 3 == 0)):
             yield ("c03", c)
     seen = set()
     for c in c10.cases(tier, inst):
@@ -80,7 +81,7 @@ def cases(tier, inst):
     for c in c15.cases(tier, inst):
         yield ("c15", c)
     seen = set()
-    for c in c16.cases(tier, inst):
+    for c in c16.cases("quick", inst):          # the flatten space at its quick bound in both tiers
         k = c[:3]
         if k not in seen:
             seen.add(k)
